@@ -601,9 +601,12 @@ def kcoreness_centrality_bd(CIJ):
     coreness = np.zeros((N,))
     kn = np.zeros((N,))
 
-    for k in range(N):
-        CIJkcore, kn[k] = kcore_bd(CIJ, k)
-        ss = np.sum(CIJkcore, axis=0) > 0
+    # in- plus out-degree reaches 2*(N-1), so cores exist beyond k = N-1
+    for k in range(2 * N - 1):
+        CIJkcore, size = kcore_bd(CIJ, k)
+        if k < N:
+            kn[k] = size
+        ss = (np.sum(CIJkcore, axis=0) + np.sum(CIJkcore, axis=1)) > 0
         coreness[ss] = k
 
     return coreness, kn
